@@ -654,7 +654,16 @@ def concretize(v, model, memo):
     if isinstance(v, (list, tuple)):
         return type(v)(concretize(x, model, memo) for x in v)
     if isinstance(v, dict):
-        return {concretize(k, model, memo): concretize(x, model, memo) for k, x in v.items()}
+        from .sym import unkey
+        out = {}
+        for k, x in v.items():
+            ck = concretize(unkey(k), model, memo)
+            try:
+                hash(ck)
+            except TypeError:
+                ck = repr(ck)
+            out[ck] = concretize(x, model, memo)
+        return out
     if isinstance(v, Opaque):
         return "<opaque %s>" % v.name
     if isinstance(v, SDict):
@@ -1156,6 +1165,9 @@ class Interp(object):
     def iterate_concrete(self, it):
         """Iterate something whose spine is concrete."""
         it = self.resolve_opt(it)
+        if isinstance(it, dict):
+            from .sym import unkey
+            return [unkey(k) for k in it]
         if isinstance(it, (list, tuple, set, frozenset, range, dict)):
             return list(it)
         if isinstance(it, (str, bytes)):
